@@ -60,6 +60,19 @@ class BMC:
         self._rescache[ck] = e
         return e
 
+    def blocked(self, t, k):
+        """thread t sits at a `park` node and its task has not been woken"""
+        conds = []
+        for n in self.G[t].vis():
+            if n.desc[0] == "park":
+                task = self.val_at(t, n.desc[1], k)
+                w = z3.Or([z3.And(task == z3.BitVecVal(i, task.size()), self.woken[k][i]) for i in range(self.ntasks)]) if self.ntasks else z3.BoolVal(False)
+                conds.append(z3.And(self.pcs[t][k] == n.id, z3.Not(w)))
+        return z3.Or(conds) if conds else z3.BoolVal(False)
+
+    def parked(self, t, k):
+        return self.blocked(t, k)
+
     def is_kind(self, t, k, kind):
         ids = [n.id for n in self.G[t].nodes if n.kind == kind]
         if not ids: return z3.BoolVal(False)
@@ -129,6 +142,7 @@ class BMC:
         if kind == "free": return (("root", d[1]), True)
         if kind == "wake": return (("woken",), True)
         if kind == "park": return (("woken",), True)
+        if kind == "wake_cell": return (d[1], True)        # reads the cell AND touches the woken flags: conservatively a write to the cell
         raise EncodingError("access of " + kind)
 
     def boundary_nodes(self, g):
@@ -167,19 +181,22 @@ class BMC:
         for key, v in mem.items(): new_mem[key] = list(v) if isinstance(v, list) else v
         new_alive = dict(self.alive[k]); new_woken = list(self.woken[k]); new_freed = dict(self.freed_count[k])
         err_now = []
-        vis_flags = [self.is_kind(t, k, "vis") for t in range(T)]
-        done_flags = [z3.Not(vis_flags[t]) for t in range(T)]
+        vis_flags = [z3.And(self.is_kind(t, k, "vis"), z3.Not(self.blocked(t, k))) for t in range(T)]       # at a visible node and able to run
+        done_flags = [z3.Not(vis_flags[t]) for t in range(T)]                                                 # finished, panicked, cut or parked
         ordinary_done = z3.And([done_flags[t] for t in range(T) if not self.after[t]] + [z3.BoolVal(True)])
         alldone = z3.And(done_flags)
         enabled_any = []
         for t, g in enumerate(self.G):
-            here = self.sched[k] == t
+            sel_t = self.sched[k] == t
+            can_run = vis_flags[t] if not self.after[t] else z3.And(vis_flags[t], ordinary_done)
+            here = z3.And(sel_t, can_run)            # effects happen only when the selected thread is able to run
             newreg = {rv: vs[k] for rv, vs in self.regs[t].items()}
             npc = self.pcs[t][k]
             for n in g.vis():
                 at = z3.And(here, self.pcs[t][k] == n.id)
                 d = [self.val_at(t, x, k) for x in n.desc]; kind = d[0]
                 key = d[1] if kind not in ("free", "wake", "park") else None
+                if kind == "wake_cell": key = d[1]
                 if key is not None and key[0] in self.alive[k]:
                     err_now.append(z3.And(at, z3.Not(self.alive[k][key[0]])))
                 def sel(arr, idx):
@@ -221,15 +238,23 @@ class BMC:
                 elif kind == "wake":
                     task = d[1]
                     for i in range(self.ntasks):
-                        new_woken[i] = z3.If(z3.And(at, task == i), z3.BoolVal(True), new_woken[i])
+                        new_woken[i] = z3.If(z3.And(at, task == z3.BitVecVal(i, task.size())), z3.BoolVal(True), new_woken[i])
+                elif kind == "wake_cell":
+                    cell = sel(mem[key], d[2]) if d[2] is not None else mem[key]
+                    err_now.append(z3.And(at, cell == 0))          # waking through a reference to a waker that is no longer there
+                    for i in range(self.ntasks):
+                        new_woken[i] = z3.If(z3.And(at, cell == z3.BitVecVal(i + 1, cell.size())), z3.BoolVal(True), new_woken[i])
+                elif kind == "park":
+                    task = d[1]
+                    for i in range(self.ntasks):
+                        new_woken[i] = z3.If(z3.And(at, task == z3.BitVecVal(i, task.size())), z3.BoolVal(False), new_woken[i])
                 else:
                     raise EncodingError("visible op kind " + kind)
                 npc = z3.If(at, self.resolve(t, n.child, k + 1), npc)
             for rv, vs in self.regs[t].items(): self.add(vs[k + 1] == newreg[rv])
             self.add(self.pcs[t][k + 1] == npc)
-            can_run = vis_flags[t] if not self.after[t] else z3.And(vis_flags[t], ordinary_done)
-            self.add(z3.Implies(here, z3.Or(can_run, alldone)))
-            enabled_any.append(z3.And(here, can_run))
+            self.add(z3.Implies(sel_t, z3.Or(can_run, alldone)))
+            enabled_any.append(here)
         self.add(z3.ULT(self.sched[k], T) if (1 << _bits(T)) > T else z3.BoolVal(True))
         self.add(z3.Or(z3.Or(enabled_any), alldone))
         self.add(z3.Implies(alldone, self.sched[k] == 0))
@@ -238,7 +263,8 @@ class BMC:
         for key, v in new_mem.items():
             if isinstance(v, list): changed += [v[j] != mem[key][j] for j in range(len(v))]
             else: changed.append(v != mem[key])
-        self.add(z3.Or(z3.Or(changed), alldone))
+        if not self.opts.get("allow_stutter"):
+            self.add(z3.Or(z3.Or(changed), alldone))
         # static partial-order reduction: adjacent INDEPENDENT steps only in increasing thread order
         if self.por and k + 1 < S:
             for a in range(T):
